@@ -6,8 +6,8 @@ Operation histories (plain data) are interpreted against the real stack:
 * world: one central and 1..3 peripherals (full Devices on vlib.world.World, LE links or BR/EDR
   links), L2CAP servers on 1..3 PSMs per kind on every device, generated order-preserving HCI
   delays. Every operation (open LE credit-based / enhanced credit-based / classic, open to an
-  unserved PSM, close and abort from either end, drain with unsent data, cut the link from
-  either end, reconnect) is *started* as a task and followed by a generated amount of virtual
+  unserved PSM, close and abort from either end, both ends closing the same channel, drain with
+  unsent data, cut the link from either end, reconnect) is *started* as a task and followed by a generated amount of virtual
   time ("wait"): 0..34 ms leaves it in flight while the next operation (possibly on another
   link, possibly a link cut) is issued, -1 runs to quiescence where the invariants are checked.
 * raw: one Device and a vlib.world.RawPeer that does the credit-based signalling by hand on
@@ -16,7 +16,9 @@ Operation histories (plain data) are interpreted against the real stack:
 
 The oracle compares the ChannelManager tables with the channels *reported open* by the channel
 objects the harness has been handed (open results, server callbacks), a small history model
-(what must be open / closed), and the completion of every started task.
+(what must be open / closed), and the completion of every started task. While operations are in
+flight on some links, the links on which nothing was started since the last quiescence are checked
+as well (their tables and channels must not move: independence).
 """
 
 from __future__ import annotations
@@ -33,10 +35,12 @@ PROPERTY = 'C09'
 LEVEL = 'exploration'
 RULE = (
     'world: histories of open(le|enh x n|classic, link, end, psm)/open-to-unserved-psm/close(channel, end)/'
-    'abort(channel, end)/drain(channel, end, bytes)/cut(link, end)/reconnect(link) over 1 central + 1..3 '
+    'close-by-both-ends(channel, gap)/abort(channel, end)/drain(channel, end, bytes)/cut(link | link of the last op, end)/'
+    'reconnect(link) over 1 central + 1..3 '
     'peripherals (LE links, LE links also carrying classic channels, or BR/EDR links), 1..3 served PSMs per '
     'kind on every device, per-device order-preserving HCI delays; each op is started as a task and followed '
-    'by a generated wait (0..34 ms = left in flight, -1 = run to quiescence, invariants checked). '
+    'by a generated wait (0..34 ms = left in flight, -1 = run to quiescence, invariants checked; links without '
+    'an operation since the last quiescence are checked also while others are busy). '
     'raw: histories of raw-peer open (own CID from a pool, LE credit-based or enhanced x n, duplicates, '
     'unserved PSM)/raw close/DUT open (answered with a pool CID, refused, or never answered)/DUT close/DUT '
     'abort/cut(end)/reconnect against one Device. non-trivial = an open after a close/refusal/abort on the '
@@ -734,6 +738,9 @@ def run_world_case(ctx, case) -> None:
                         link.dirty = False
                 else:
                     loop.run_for(wait / 1000.0)
+                    if loop.budget_hit:
+                        labels.add('iteration_budget_hit')
+                        break
                     reap()
                     if any(link.dirty for link in links) and any(not link.dirty and link.up for link in links):
                         labels.add('independence_checked')
